@@ -68,6 +68,8 @@ def check(case):
         m = sum(rho[i] * P[i] for i in comp) / rc
         cov -= rc * np.einsum('ab,cd->abcd', m, m)
     scale = sum(r * np.sum(p * p) for r, p in zip(rho, P))
+    if scale < 1e-20 * max([1e-300] + [np.sum(p * p) for p in dip]):
+        scale = 0.   # every dipole is projected to zero by the site symmetry: nothing to compare but round-off
     total = np.zeros((d, d, d, d))
     rates = []
     for l, L in lam:
@@ -77,7 +79,7 @@ def check(case):
         require(nearest <= 1e-8 * wmax and l > 1e-9 * wmax, lambda: "reported relaxation rate %.10g is not a non-zero eigenvalue of the symmetrised rate matrix (nearest differs by %.3e, spectrum %s)"
                 % (l, nearest, np.round(w, 8).tolist()))
         sc = max(np.abs(L).max(), 1e-300)
-        if np.abs(L).max() > 1e-13 * max(scale, 1e-300):
+        if scale > 0 and np.abs(L).max() > 1e-13 * scale:
             require(np.abs(L - L.transpose(1, 0, 2, 3)).max() <= 1e-9 * sc and np.abs(L - L.transpose(0, 1, 3, 2)).max() <= 1e-9 * sc
                     and np.abs(L - L.transpose(2, 3, 0, 1)).max() <= 1e-9 * sc, lambda: "loss tensor of mode %.6g lacks the symmetries of an elastic compliance" % l)
             M = L.reshape(d * d, d * d)
